@@ -1063,8 +1063,17 @@ class C04(Check):
             ok, e = (False, res) if isinstance(res, str) else _close("refmap", res, X, tol)
             if not ok:
                 bad("inverse-map", "p differs from the reference barycentric inverse: %s" % (e,))
-            res = self._try_apply(p, st["tgt"])
-            ok, e = (False, res) if isinstance(res, str) else _close("interp", res, st["src"], 1e-8 * max(1.0, float(np.abs(st["src"]).max())) * st["tolx"])
+            lm_t, lm_s = st["tgt"], st["src"]
+            if st["tolx"] > 1:
+                # float32 coordinates: whether a vertex lies inside its own triangle is decided by float32 rounding
+                # (as for edge points); approach every landmark from inside each of its triangles instead
+                eps = 1e-3
+                W = np.array([[1 - eps, eps / 2, eps / 2], [eps / 2, 1 - eps, eps / 2], [eps / 2, eps / 2, 1 - eps]])
+                lm_t = np.vstack([W.dot(st["tgt"][tri]) for tri in st["trilist"]])
+                lm_s = np.vstack([W.dot(st["src"][tri]) for tri in st["trilist"]])
+                self.note("interpolation:landmarks-approached-from-inside(float32)")
+            res = self._try_apply(p, lm_t)
+            ok, e = (False, res) if isinstance(res, str) else _close("interp", res, lm_s, 1e-8 * max(1.0, float(np.abs(st["src"]).max())) * st["tolx"])
             if not ok:
                 bad("interpolation", "target landmarks are not sent back onto the source landmarks: %s" % (e,))
         if fam == "TPS":
